@@ -6,7 +6,18 @@ import Ibx.Model.StyleFilter
 /-
   T1 tie for C18: the hand-written sanitiser models use exactly the tables, literals and code shape that the
   regenerated facts (Ibx/Gen/San.lean, re-read from pkg/webui/sanitize/{css,html}.go, pkg/server/web/helpers.go
-  and the gorilla/css scanner of go.mod on every run) report.  If the source changes one of them these
+  and the gorilla/css scanner of go.mod on every run) report.
+
+  The code-shape facts (`…Sem`) are SEMANTIC SUMMARIES, not source text: each function is executed symbolically by
+  the extractor (harness/cmd/extract/san.go, header comment there) and printed as rows
+      condition && condition => effect; effect -> outcome
+  in which local variables are replaced by their definitions (parameters are $1, $2, …), unexported helpers are
+  inlined, functions used as values are F1, F2, …, loops are L1, L2, … (one iteration; @1 … are the variables carried
+  round, #M is the result of effect M), constructed objects are o1, o2, …, map-literal tables are T1, …, string
+  building (a + b, append, Sprintf("%s"), conversions) is a concatenation `++`, and the conditions are re-expanded
+  into a decision tree in a fixed order.  Renaming locals / unexported helpers, extracting helpers, if/else <-> switch,
+  early returns, flag variables, reordered cases, comments and formatting do not change a row; a changed call,
+  literal, operator, order of effects or condition does.  If the source changes one of them these
   obligations stop checking — e.g. a property added to `allowedProperties` (then decide with the rule below
   whether the new table is still acceptable and update `Ibx.Model.Css.allowed`).
 
@@ -29,23 +40,29 @@ theorem allowed_not_dangerous :
            "background", "background-image", "list-style", "list-style-image", "cursor", "border-image", "mask",
            "filter", "src"], p ∉ Gen.San.allowedPropertyNames := by decide +kernel
 
-/-- the three handlers, and what each of them looks at / writes / returns -/
-theorem handlers_tie : Gen.San.stateHandlers = ["stateStart", "stateEat", "stateValid"] := by decide
-theorem loop_tie :
-    Gen.San.sanitizeStyleTypes = ["New", "TokenEOF", "TokenError"] ∧
-    Gen.San.sanitizeStyleReturns = ["b.String()", "\"\"", "\"\""] ∧
-    Gen.San.sanitizeStyleCalls = ["scanner.New", "scan.Next", "b.String", "state"] := by decide
-theorem start_tie :
-    Gen.San.stateStartLits = ["/*", "*/"] ∧
-    Gen.San.stateStartTypes = ["Token", "TokenIdent", "TokenS"] ∧
-    Gen.San.stateStartReturns = ["stateEat", "stateValid", "stateStart", "stateEat"] ∧
-    Gen.San.stateStartCalls = ["strings.ToLower", "b.WriteString", "b.WriteString", "t.Type.String"] := by decide
-theorem eat_tie :
-    Gen.San.stateEatLits = [";"] ∧ Gen.San.stateEatTypes = ["Token", "TokenChar"] ∧
-    Gen.San.stateEatReturns = ["stateStart", "stateEat"] ∧ Gen.San.stateEatCalls = [] := by decide
-theorem valid_tie :
-    Gen.San.stateValidLits = [";"] ∧ Gen.San.stateValidTypes = ["Token", "TokenChar"] ∧
-    Gen.San.stateValidReturns = ["state"] ∧ Gen.San.stateValidCalls = ["b.WriteString"] := by decide
+/-- css.go, sanitizeStyle: the scan loop (L1: EOF -> the buffer, error -> "", otherwise call the current handler @1,
+    nil -> "") and the three handlers reached from it as function values — F1 = stateStart (the initial one), F2 =
+    stateValid, F3 = stateEat — row for row `Css.run` / `Css.step`: which token types and values each looks at, what
+    it writes, which handler it returns; T1 is the allow-list consulted with strings.ToLower of the value -/
+theorem css_sem_tie : Gen.San.cssSem = [
+      "always => loop L1(@1 = F1) -> return ret(L1)",
+      "L1: ##Next.Type == scanner.TokenEOF => o1.Next(); <membuf>.String() -> return ##String",
+      "L1: ##Next.Type == scanner.TokenError => o1.Next() -> return \"\"",
+      "L1: ##Next.Type notin {scanner.TokenEOF, scanner.TokenError} && ##call == nil => o1.Next(); @1(<membuf>, ##Next) -> return \"\"",
+      "L1: ##Next.Type notin {scanner.TokenEOF, scanner.TokenError} && ##call != nil => o1.Next(); @1(<membuf>, ##Next); @1 := ##call -> next",
+      "F1: $2.Type == scanner.TokenIdent && has(T1, strings.ToLower($2.Value)) => $1.WriteString($2.Value) -> return F2",
+      "F1: $2.Type == scanner.TokenIdent && !has(T1, strings.ToLower($2.Value)) => - -> return F3",
+      "F1: $2.Type == scanner.TokenS => - -> return F1",
+      "F1: $2.Type notin {scanner.TokenIdent, scanner.TokenS} => $1.WriteString(\"/*\" ++ $2.Type.String() ++ \"*/\") -> return F3",
+      "F2: $2.Type == scanner.TokenChar && $2.Value == \";\" => $1.WriteString($2.Value) -> return F1",
+      "F2: $2.Type == scanner.TokenChar && $2.Value != \";\" => $1.WriteString($2.Value) -> return F2",
+      "F2: $2.Type != scanner.TokenChar => $1.WriteString($2.Value) -> return F2",
+      "F3: $2.Type == scanner.TokenChar && $2.Value == \";\" => - -> return F1",
+      "F3: $2.Type == scanner.TokenChar && $2.Value != \";\" => - -> return F3",
+      "F3: $2.Type != scanner.TokenChar => - -> return F3",
+      "o1 = scanner.New($1)",
+      "import scanner = github.com/gorilla/css/scanner",
+      "import strings = strings"] := rfl
 
 /-- the scanner's token types (iota order) and their names are the model's -/
 theorem token_names_tie : Gen.San.tokenNames = some (Css.TT.all.map Css.TT.name) := by decide +kernel
@@ -55,45 +72,90 @@ theorem token_consts_tie : Gen.San.tokenConsts.length = Css.TT.all.length ∧
     Gen.San.tokenConsts[21]? = some "TokenChar" := by decide
 theorem token_codes : ∀ t ∈ Css.TT.all, Css.TT.ofCode t.code = some t := by decide
 
-/-- html.go: the bluemonday policy and the order filter -> policy (assumption A3 is about exactly this policy) -/
-theorem policy_tie :
-    Gen.San.policySrc = some "bluemonday.UGCPolicy().AllowElements(\"center\").AllowAttrs(\"style\").Matching(cssSafe).Globally()" ∧
-    Gen.San.cssSafeSrc = some "regexp.MustCompile(\".*\")" ∧
-    Gen.San.htmlCalls = ["sanitizeStyleTags", "policy.Sanitize"] := by decide
-/-- the filter passes `style` values through sanitizeStyle and escapes what it writes -/
-theorem filter_tie :
-    "sanitizeStyle" ∈ Gen.San.filterCalls ∧ "html.EscapeString" ∈ Gen.San.filterCalls ∧
-    "strings.ToLower" ∈ Gen.San.filterCalls ∧ "style" ∈ Gen.San.filterLits := by decide
-
-/-- helpers.go: escape, then wrap, then the newline replacer; the replacer's arguments; WrapURL's pieces -/
-theorem text_order_tie :
-    Gen.San.textToHTMLCalls = ["html.EscapeString", "urlRE.ReplaceAllStringFunc", "strings.NewReplacer", "replacer.Replace"] := by decide
+/-- helpers.go, TextToHTML: escape (the standard library's html), then wrap every match of the expression (o1; the
+    expression itself is a parameter of the model) with F1 = wrapMatch, then the newline replacer o2 over the whole
+    result; F1 row for row `TextHtml.cutMatch` / `wrapMatch` -/
+theorem text_sem_tie : Gen.San.textSem = [
+      "always => o1.ReplaceAllStringFunc(html.EscapeString($1), F1); o2.Replace(#ReplaceAllStringFunc) -> return #Replace",
+      "F1: strings.LastIndexByte($1, \"&\") < 0 => - -> return WrapURL($1)",
+      "F1: strings.LastIndexByte($1, \"&\") >= 0 && $1[strings.LastIndexByte($1, \"&\"):] in {\"&#34\", \"&#39\", \"&amp\", \"&gt\", \"&lt\"} => - -> return WrapURL($1[:strings.LastIndexByte($1, \"&\")]) ++ $1[strings.LastIndexByte($1, \"&\"):]",
+      "F1: strings.LastIndexByte($1, \"&\") >= 0 && $1[strings.LastIndexByte($1, \"&\"):] notin {\"&#34\", \"&#39\", \"&amp\", \"&gt\", \"&lt\"} => - -> return WrapURL($1)",
+      "o1 = regexp.MustCompile(<re>)",
+      "o2 = strings.NewReplacer(\"\\r\\n\", \"<br/>\\n\", \"\\r\", \"<br/>\\n\", \"\\n\", \"<br/>\\n\")",
+      "import html = html",
+      "import regexp = regexp",
+      "import strings = strings"] := rfl
+/-- the constants wrapMatch compares the tail with are the model's `partials` (as a set) -/
 theorem wrapMatch_tie :
-    Gen.San.textToHTMLReplaceFunc = "wrapMatch" ∧ Gen.San.wrapMatchLits = TextHtml.partials ∧
-    Gen.San.wrapMatchCalls = ["strings.LastIndexByte", "WrapURL", "WrapURL"] ∧
-    Gen.San.wrapMatchReturns = ["WrapURL(match[:i]) + match[i:]", "WrapURL(match)"] := by decide
+    (∀ x ∈ Gen.San.wrapMatchLits, x ∈ TextHtml.partials) ∧ (∀ x ∈ TextHtml.partials, x ∈ Gen.San.wrapMatchLits) ∧
+    Gen.San.wrapMatchLits.length = TextHtml.partials.length := by decide
+/-- the replacer's arguments, in order (= priority at one position) -/
 theorem replacer_tie :
-    Gen.San.textToHTMLLits = [[13, 10], TextHtml.br, [13], TextHtml.br, [10], TextHtml.br] := by decide
+    Gen.San.replacerArgs = [[13, 10], TextHtml.br, [13], TextHtml.br, [10], TextHtml.br] := by decide
+/-- WrapURL with linkable inlined, row for row `TextHtml.wrapURL` / `linkable` / `anchor`; T1 is the scheme table -/
+theorem wrap_sem_tie : Gen.San.wrapURLSem = [
+      "strings.IndexAny($1, \":/?#&\") < 0 => - -> return \"<a href=\\\"\" ++ strings.ReplaceAll($1, \"&amp;\", \"&\") ++ \"\\\" target=\\\"_blank\\\">\" ++ $1 ++ \"</a>\"",
+      "strings.IndexAny($1, \":/?#&\") >= 0 && $1[strings.IndexAny($1, \":/?#&\")] == \"&\" => - -> return $1",
+      "strings.IndexAny($1, \":/?#&\") >= 0 && $1[strings.IndexAny($1, \":/?#&\")] == \":\" && T1[strings.ToLower($1[:strings.IndexAny($1, \":/?#&\")])] => - -> return \"<a href=\\\"\" ++ strings.ReplaceAll($1, \"&amp;\", \"&\") ++ \"\\\" target=\\\"_blank\\\">\" ++ $1 ++ \"</a>\"",
+      "strings.IndexAny($1, \":/?#&\") >= 0 && $1[strings.IndexAny($1, \":/?#&\")] == \":\" && !T1[strings.ToLower($1[:strings.IndexAny($1, \":/?#&\")])] => - -> return $1",
+      "strings.IndexAny($1, \":/?#&\") >= 0 && $1[strings.IndexAny($1, \":/?#&\")] notin {\"&\", \":\"} => - -> return \"<a href=\\\"\" ++ strings.ReplaceAll($1, \"&amp;\", \"&\") ++ \"\\\" target=\\\"_blank\\\">\" ++ $1 ++ \"</a>\"",
+      "import strings = strings"] := rfl
 theorem wrap_tie :
-    Gen.San.wrapURLLits = [TextHtml.amp, [38], TextHtml.aOpen ++ [37, 115] ++ TextHtml.aMid ++ [37, 115] ++ TextHtml.aClose] ∧
-    Gen.San.wrapURLCalls = ["linkable", "strings.ReplaceAll", "fmt.Sprintf"] ∧
-    Gen.San.wrapURLReturns = ["url", "fmt.Sprintf(\"<a href=\\\"%s\\\" target=\\\"_blank\\\">%s</a>\", unescaped, url)"] := by decide
+    Gen.San.wrapURLLits = [TextHtml.amp, [38], TextHtml.aOpen, TextHtml.aMid, TextHtml.aClose] := by decide
 theorem linkable_tie :
-    Gen.San.linkableLits = [TextHtml.delims] ∧ Gen.San.linkSchemes = some TextHtml.schemes ∧
-    Gen.San.linkableSrc = "{ i := strings.IndexAny(url, \":/?#&\") if i < 0 { return true } switch url[i] { case ':': return linkSchemes[strings.ToLower(url[:i])] case '&': return false } return true }" := by decide +kernel
+    Gen.San.linkableLits = [TextHtml.delims] ∧ Gen.San.linkSchemes = some TextHtml.schemes := by decide +kernel
 
 /-! ### the style-tag filter and the two tokenizers (differential parse) -/
 
-/-- html.go constructs its tokenizer with `html.NewTokenizer(r)` and calls nothing on it but the five accessors the
-    model's token stream is made of — NO option setter (AllowCDATA, NextIsNotRawText, SetMaxBuf); `html` is
-    golang.org/x/net/html (not the standard library's); the loop distinguishes exactly the three cases of the model;
-    sanitizeStyleTags discards the buffer on error -/
+/-- html.go, sanitize.HTML with sanitizeStyleTags / styleTagFilter inlined, row for row `StyleFilter.filter` / `emit` /
+    `rewriteAttr` / `serAttr` / `serTag`: the filter runs first and the policy o5 (bluemonday UGC + center + style
+    matching `.*`, assumption A3 is about exactly this policy) on its output, the output is discarded on error; the
+    token loop L1 distinguishes exactly the three cases of the model (Raw is read AFTER TagName); the attribute loop L2
+    passes `style` values (key compared after strings.ToLower) through sanitizeStyle, drops the attribute when nothing
+    is left and escapes every value it writes with x/net/html's EscapeString (`import html = golang.org/x/net/html`);
+    the tokenizer o6 is html.NewTokenizer over the input and nothing is called on it but the five accessors -/
+theorem filter_sem_tie : Gen.SanFilter.filterSem = [
+      "ret(L1) == nil => loop L1(); <membuf>.String(); o5.Sanitize(#String) -> return (#Sanitize, nil)",
+      "ret(L1) != nil => loop L1() -> return (\"\", ret(L1))",
+      "L1: ##Next == html.ErrorToken && ##Err == io.EOF => o6.Next(); o6.Err(); o7.Flush() -> return ##Flush",
+      "L1: ##Next == html.ErrorToken && ##Err != io.EOF => o6.Next(); o6.Err() -> return ##Err",
+      "L1: ##Next == html.SelfClosingTagToken && ##TagName.1 && ##Write.1 == nil => o6.Next(); o6.TagName(); loop L2(@@1 = \"<\" ++ ##TagName.0); o7.Write(L2.@@1 ++ \"/>\") -> next",
+      "L1: ##Next == html.SelfClosingTagToken && ##TagName.1 && ##Write.1 != nil => o6.Next(); o6.TagName(); loop L2(@@1 = \"<\" ++ ##TagName.0); o7.Write(L2.@@1 ++ \"/>\") -> return ##Write.1",
+      "L1: ##Next == html.SelfClosingTagToken && !##TagName.1 && ##Write.1 == nil => o6.Next(); o6.TagName(); o6.Raw(); o7.Write(##Raw) -> next",
+      "L1: ##Next == html.SelfClosingTagToken && !##TagName.1 && ##Write.1 != nil => o6.Next(); o6.TagName(); o6.Raw(); o7.Write(##Raw) -> return ##Write.1",
+      "L1: ##Next == html.StartTagToken && ##TagName.1 && ##Write.1 == nil => o6.Next(); o6.TagName(); loop L2(@@1 = \"<\" ++ ##TagName.0); o7.Write(L2.@@1 ++ \">\") -> next",
+      "L1: ##Next == html.StartTagToken && ##TagName.1 && ##Write.1 != nil => o6.Next(); o6.TagName(); loop L2(@@1 = \"<\" ++ ##TagName.0); o7.Write(L2.@@1 ++ \">\") -> return ##Write.1",
+      "L1: ##Next == html.StartTagToken && !##TagName.1 && ##Write.1 == nil => o6.Next(); o6.TagName(); o6.Raw(); o7.Write(##Raw) -> next",
+      "L1: ##Next == html.StartTagToken && !##TagName.1 && ##Write.1 != nil => o6.Next(); o6.TagName(); o6.Raw(); o7.Write(##Raw) -> return ##Write.1",
+      "L1: ##Next notin {html.ErrorToken, html.SelfClosingTagToken, html.StartTagToken} && ##Write.1 == nil => o6.Next(); o6.Raw(); o7.Write(##Raw) -> next",
+      "L1: ##Next notin {html.ErrorToken, html.SelfClosingTagToken, html.StartTagToken} && ##Write.1 != nil => o6.Next(); o6.Raw(); o7.Write(##Raw) -> return ##Write.1",
+      "L2: ###TagAttr.2 && <sanitizeStyle>(###TagAttr.1) == \"\" && strings.ToLower(###TagAttr.0) == \"style\" => o6.TagAttr() -> next",
+      "L2: ###TagAttr.2 && <sanitizeStyle>(###TagAttr.1) == \"\" && strings.ToLower(###TagAttr.0) != \"style\" => o6.TagAttr(); @@1 := @@1 ++ \" \" ++ ###TagAttr.0 ++ \"=\\\"\" ++ html.EscapeString(###TagAttr.1) ++ \"\\\"\" -> next",
+      "L2: ###TagAttr.2 && <sanitizeStyle>(###TagAttr.1) != \"\" && strings.ToLower(###TagAttr.0) == \"style\" => o6.TagAttr(); @@1 := @@1 ++ \" \" ++ ###TagAttr.0 ++ \"=\\\"\" ++ html.EscapeString(<sanitizeStyle>(###TagAttr.1)) ++ \"\\\"\" -> next",
+      "L2: ###TagAttr.2 && <sanitizeStyle>(###TagAttr.1) != \"\" && strings.ToLower(###TagAttr.0) != \"style\" => o6.TagAttr(); @@1 := @@1 ++ \" \" ++ ###TagAttr.0 ++ \"=\\\"\" ++ html.EscapeString(###TagAttr.1) ++ \"\\\"\" -> next",
+      "L2: !###TagAttr.2 && <sanitizeStyle>(###TagAttr.1) == \"\" && strings.ToLower(###TagAttr.0) == \"style\" => o6.TagAttr() -> exit",
+      "L2: !###TagAttr.2 && <sanitizeStyle>(###TagAttr.1) == \"\" && strings.ToLower(###TagAttr.0) != \"style\" => o6.TagAttr(); @@1 := @@1 ++ \" \" ++ ###TagAttr.0 ++ \"=\\\"\" ++ html.EscapeString(###TagAttr.1) ++ \"\\\"\" -> exit",
+      "L2: !###TagAttr.2 && <sanitizeStyle>(###TagAttr.1) != \"\" && strings.ToLower(###TagAttr.0) == \"style\" => o6.TagAttr(); @@1 := @@1 ++ \" \" ++ ###TagAttr.0 ++ \"=\\\"\" ++ html.EscapeString(<sanitizeStyle>(###TagAttr.1)) ++ \"\\\"\" -> exit",
+      "L2: !###TagAttr.2 && <sanitizeStyle>(###TagAttr.1) != \"\" && strings.ToLower(###TagAttr.0) != \"style\" => o6.TagAttr(); @@1 := @@1 ++ \" \" ++ ###TagAttr.0 ++ \"=\\\"\" ++ html.EscapeString(###TagAttr.1) ++ \"\\\"\" -> exit",
+      "o1 = bluemonday.UGCPolicy()",
+      "o2 = o1.AllowElements(\"center\")",
+      "o3 = o2.AllowAttrs(\"style\")",
+      "o4 = o3.Matching(regexp.MustCompile(\".*\"))",
+      "o5 = o4.Globally()",
+      "o6 = html.NewTokenizer(strings.NewReader($1))",
+      "o7 = bufio.NewWriter(<membuf>)",
+      "import bluemonday = github.com/microcosm-cc/bluemonday",
+      "import bufio = bufio",
+      "import html = golang.org/x/net/html",
+      "import io = io",
+      "import regexp = regexp",
+      "import strings = strings"] := rfl
+
+/-- html.go constructs its tokenizer with x/net/html's one-argument NewTokenizer and calls nothing on it but the five
+    accessors the model's token stream is made of — NO option setter (AllowCDATA, NextIsNotRawText, SetMaxBuf) -/
 theorem filter_tokenizer_tie :
-    Gen.SanFilter.filterTokenizerCtors = ["html.NewTokenizer(r)"] ∧
-    Gen.SanFilter.filterTokenizerMethods = ["Err", "Next", "Raw", "TagAttr", "TagName"] ∧
-    Gen.SanFilter.filterCases = ["html.ErrorToken", "html.StartTagToken,html.SelfClosingTagToken", "default"] ∧
-    Gen.SanFilter.htmlImports = ["bufio", "bytes", "github.com/microcosm-cc/bluemonday", "golang.org/x/net/html", "io", "regexp", "strings"] ∧
-    Gen.SanFilter.sanitizeStyleTagsReturns = ["\"\",err", "b.String(),nil"] := by decide
+    Gen.SanFilter.filterTokenizerCtors = ["golang.org/x/net/html.NewTokenizer/1"] ∧
+    Gen.SanFilter.filterTokenizerMethods = ["Err", "Next", "Raw", "TagAttr", "TagName"] := by decide
 
 /-- bluemonday (the version go.mod selects) constructs ITS tokenizer the same way and sets no option either: both
     passes read the same bytes with the same tokenizer configuration (assumption A2 is about exactly this pair) -/
@@ -123,9 +185,5 @@ theorem xescape_tie :
       [StyleFilter.amp, StyleFilter.apos, StyleFilter.lt, StyleFilter.gt, StyleFilter.quot, StyleFilter.cr] ∧
     Gen.SanFilter.escapeCases = ["'&'->&amp;", "'\\''->&#39;", "'<'->&lt;", "'>'->&gt;", "'\"'->&#34;", "'\\r'->&#13;"] ∧
     Gen.SanFilter.escapedChars.length = 6 := by decide
-
-/-- the body of styleTagFilter is, token for token, the text Model/StyleFilter.lean was read from -/
-theorem filter_src_tie : Gen.SanFilter.filterSrc =
-    "{ bw := bufio.NewWriter(w) b := make([]byte, 0, 256) z := html.NewTokenizer(r) for { b = b[:0] tt := z.Next() switch tt { case html.ErrorToken: err := z.Err() if err == io.EOF { return bw.Flush() } return err case html.StartTagToken, html.SelfClosingTagToken: name, hasAttr := z.TagName() if !hasAttr { if _, err := bw.Write(z.Raw()); err != nil { return err } continue } b = append(b, '<') b = append(b, name...) for { key, val, more := z.TagAttr() strval := string(val) style := false if strings.ToLower(string(key)) == \"style\" { style = true strval = sanitizeStyle(strval) } if !style || strval != \"\" { b = append(b, ' ') b = append(b, key...) b = append(b, '=', '\"') b = append(b, []byte(html.EscapeString(strval))...) b = append(b, '\"') } if !more { break } } if tt == html.SelfClosingTagToken { b = append(b, '/') } if _, err := bw.Write(append(b, '>')); err != nil { return err } default: if _, err := bw.Write(z.Raw()); err != nil { return err } } } }" := rfl
 
 end Ibx.Tie.San
